@@ -50,7 +50,7 @@ pub struct LayerDef {
 }
 pub fn tech() -> Vec<LayerDef> {
     vec![
-        LayerDef { num: 11, name: "la", purposes: vec![(21, LayerPurpose::Drawing), (22, LayerPurpose::Pin), (23, LayerPurpose::Label), (24, LayerPurpose::Obstruction)] },
+        LayerDef { num: 11, name: "la", purposes: vec![(21, LayerPurpose::Drawing), (22, LayerPurpose::Pin), (23, LayerPurpose::Label), (24, LayerPurpose::Obstruction), (25, LayerPurpose::Outline)] },
         LayerDef { num: 12, name: "lb", purposes: vec![(31, LayerPurpose::Drawing), (7, LayerPurpose::Other(7)), (33, LayerPurpose::Label), (32, LayerPurpose::Pin), (34, LayerPurpose::Obstruction)] },
         // purpose numbers beyond one byte and below zero; drawing on a non-zero number with purpose 0 left undeclared
         LayerDef { num: 13, name: "lc", purposes: vec![(20, LayerPurpose::Drawing), (256, LayerPurpose::Other(256)), (300, LayerPurpose::Other(300)), (-5, LayerPurpose::Other(-5)), (16, LayerPurpose::Pin), (18, LayerPurpose::Obstruction)] },
